@@ -283,3 +283,31 @@ Definition bret_to_ret (r : bret) : option ret :=
 
 Definition bufio_ingest (size : nat) (cs : list str) (d : ascii) (cb : callback) : list str * option ret :=
   let (ls, r) := bufio_ingest_src size (eof_source cs) d cb in (ls, bret_to_ret r).
+
+(* ---------- dirreader.readLines on this reader (ctx never done) ----------
+     bufioReader := bufio.NewReader(reader); var numBytesRead int64
+     for { lineRaw, err := bufioReader.ReadString('\n')
+           if err != nil { if errors.Is(err, io.EOF) { return numBytesRead, nil }; return numBytesRead, err }
+           lineLen := len(lineRaw); numBytesRead += int64(lineLen)
+           if lineLen > 0 { line = lineRaw[0 : lineLen-1] }
+           lines <- line }
+   result = (lines sent, numBytesRead, returned error)                                          *)
+Inductive rl_ret := RLNil | RLErr (e : error) | RLPanic (p : panic) | RLOutOfFuel.
+
+Fixpoint bufio_read_lines_loop (fuel : nat) (b : reader) (n : nat) : list str * nat * rl_ret :=
+  match fuel with
+  | 0 => ([], n, RLOutOfFuel)
+  | S f =>
+      match read_string_b "010"%char b with
+      | RSPanic p => ([], n, RLPanic p)
+      | RSOutOfFuel => ([], n, RLOutOfFuel)
+      | RSOk _ (Some EEOF) _ => ([], n, RLNil)
+      | RSOk _ (Some e) _ => ([], n, RLErr e)
+      | RSOk raw None b' =>
+          let line := firstn (length raw - 1) raw in
+          let '(ls, n', r) := bufio_read_lines_loop f b' (n + length raw) in (line :: ls, n', r)
+      end
+  end.
+
+Definition bufio_read_lines (size : nat) (rd : source) : list str * nat * rl_ret :=
+  bufio_read_lines_loop (S (length (stream rd))) (new_reader_size rd size) 0.
